@@ -111,6 +111,9 @@ func newNamer(r *rand.Rand) *namer {
 	for _, m := range methodNames {
 		nm.used[m] = true
 	}
+	for i := 0; i < 8; i++ {
+		nm.used[fmt.Sprintf("e%d", i)] = true // the enum type names E0, E1, …
+	}
 	for i := 0; i < 48; i++ {
 		nm.used[fmt.Sprintf("auxa%d", i)] = true
 		nm.used[fmt.Sprintf("auxb%d", i)] = true
